@@ -185,3 +185,26 @@ pub fn c14_writer_frame_format() {
     kani::cover!(plen == max as usize + 1);
     core::mem::forget(w);
 }
+
+/// A refused frame (above max_len) does not poison the writer: the next, acceptable value is
+/// written as a correct frame of its own and nothing of the refused one reaches the sink.
+#[kani::proof]
+#[kani::unwind(10)]
+#[kani::stub(std::vec::Vec::resize, crate::models::vec_resize)]
+#[kani::stub(std::vec::Vec::extend_from_slice, crate::models::vec_extend_from_slice)]
+#[kani::stub(minicbor::encode::Error::write, crate::models::encode_error_write_unreachable)]
+pub fn c14_writer_refused_frame_then_good_frame() {
+    let big: (u8, bool) = kani::any();
+    let y: u8 = kani::any();
+    kani::assume(y < 24);
+    let mut w = Writer::with_buffer(Sink { out: [0; S], n: 0, calls: 0 }, Vec::with_capacity(8));
+    w.set_max_len(2);
+    let r1 = w.write(&big);
+    assert!(matches!(r1, Err(Error::InvalidLen)), "a 3- or 4-byte payload must be refused with max_len = 2");
+    assert!(w.writer().n == 0);
+    let r2 = w.write(&y);
+    assert!(matches!(r2, Ok(1)), "an acceptable frame after a refused one was not written correctly");
+    let s = w.writer();
+    assert!(s.n == 5 && s.out[0] == 0 && s.out[1] == 0 && s.out[2] == 0 && s.out[3] == 1 && s.out[4] == y, "second frame is not `00 00 00 01 y`");
+    core::mem::forget(w);
+}
